@@ -3,9 +3,11 @@ package checks
 import (
 	"context"
 	"fmt"
+	"runtime"
 	"runtime/debug"
 	"sort"
 	"strings"
+	"sync"
 	"time"
 
 	"github.com/anishathalye/porcupine"
@@ -25,17 +27,29 @@ type recRollbacker struct {
 	spans [][2]int // seq stamps
 	who   []string // scheduler task that performed the rollback
 	sched *sim.Sched
+	// widen (free-running leg): the rollback yields the processor this many times before and after the real one,
+	// so that calls of other clients meet a rollback in progress
+	widen int
+	mu    sync.Mutex
 }
 
 func (r *recRollbacker) TransactionRollback(ctx context.Context, tr *types.Transaction, dryRun bool) (*sdcpb.TransactionSetResponse, error) {
 	id := tr.GetTransactionId()
 	a := r.rc.Seq()
 	r.rc.Logf("ROLLBACK begin %s", id)
+	for i := 0; i < r.widen; i++ {
+		runtime.Gosched()
+	}
 	rsp, err := r.inner.TransactionRollback(ctx, tr, dryRun)
+	for i := 0; i < r.widen; i++ {
+		runtime.Gosched()
+	}
 	b := r.rc.Seq()
+	r.mu.Lock()
 	r.calls = append(r.calls, id)
 	r.who = append(r.who, r.sched.CurrentName())
 	r.spans = append(r.spans, [2]int{a, b})
+	r.mu.Unlock()
 	r.rc.Logf("ROLLBACK end %s err=%t", id, err != nil)
 	return rsp, err
 }
@@ -145,8 +159,23 @@ func runC16(rc *sim.RunCtx) {
 		rc.Probe("id-reused")
 		rc.Scenario("the competing TransactionSet reuses the id of T1")
 	}
+	// free-running leg (a fifth of the runs): the tasks and the timer are not parked at the yield points but run as the Go
+	// scheduler lets them, all started at offsets that tie with the deadline, and the rollback takes a while. This reaches
+	// what cannot be parked: windows inside a call that holds the manager lock on correct code (another task would wait for a
+	// sync.Mutex there, which testing/synctest does not treat as durably blocked). Runtime monitoring: events are not part of
+	// the canonical log, the count-based clauses judge the outcome, the linearizability clause is left to the scheduled runs.
+	free := t.Bool(1, 5)
+	if free {
+		rc.Probe("mode-free-running")
+		rc.Scenario("free-running leg")
+		rec.widen = 400
+	}
 	ntasks := 1 + t.Choose(3)
+	if free {
+		ntasks = 2 + t.Choose(2)
+	}
 	var ops []*c16op
+	var opMu sync.Mutex
 	inflight := map[*c16op]bool{}
 	panics := []string{}
 	t2Timeout := uint32(30)
@@ -155,6 +184,10 @@ func runC16(rc *sim.RunCtx) {
 		// start offset relative to the deadline: well before, just before, at, just after
 		off := []time.Duration{0, time.Duration(T)*time.Second - 250*time.Millisecond, time.Duration(T)*time.Second - 50*time.Millisecond,
 			time.Duration(T) * time.Second, time.Duration(T)*time.Second + 50*time.Millisecond}[t.Choose(5)]
+		if free {
+			// everybody meets at the deadline (give or take nothing: ties on the fake clock run in parallel)
+			off = time.Duration(T) * time.Second
+		}
 		name := fmt.Sprintf("c%d-%s", i, k)
 		rc.Scenario("task %s starts at +%s", name, off)
 		parts := strings.SplitN(k, ":", 2)
@@ -163,17 +196,21 @@ func runC16(rc *sim.RunCtx) {
 		sched.Go(name, func() {
 			defer func() {
 				if r := recover(); r != nil {
+					opMu.Lock()
 					panics = append(panics, fmt.Sprintf("%s: %v\n%s", name, r, debug.Stack()))
 					op.Ret = rc.Seq()
 					delete(inflight, op)
+					opMu.Unlock()
 				}
 			}()
 			if off > 0 {
 				time.Sleep(off)
 			}
 			sched.Yield("invoke")
+			opMu.Lock()
 			op.Call = rc.Seq()
 			inflight[op] = true
+			opMu.Unlock()
 			rc.Logf("INVOKE %s", name)
 			var err error
 			switch op.Kind {
@@ -188,6 +225,8 @@ func runC16(rc *sim.RunCtx) {
 					err = fmt.Errorf("intent errors")
 				}
 			}
+			opMu.Lock()
+			defer opMu.Unlock()
 			op.Ret = rc.Seq()
 			delete(inflight, op)
 			op.OK = err == nil
@@ -216,7 +255,11 @@ func runC16(rc *sim.RunCtx) {
 			expCall = rc.Seq()
 		}
 	}
-	sched.Enable()
+	if free {
+		rc.MuteLog()
+	} else {
+		sched.Enable()
+	}
 	finished := sched.Run(3000)
 	sched.Drain()
 	if !finished {
@@ -316,7 +359,8 @@ func runC16(rc *sim.RunCtx) {
 				// the TransactionSet was inside a registration attempt at that instant: a transient refusal, not the wait
 				rc.Probe("refused-transient")
 			}
-			if onlySets && len(o.Others) > 0 && !o.SetMidAttempt {
+			// (in the free-running leg nobody is parked, "mid attempt" cannot be told from "waiting": not judged there)
+			if onlySets && len(o.Others) > 0 && !o.SetMidAttempt && !free {
 				rc.Probe("refused-while-set-waiting")
 				ff := copyFields(f)
 				ff["op"] = o.Kind
@@ -367,7 +411,7 @@ func runC16(rc *sim.RunCtx) {
 		pops = append(pops, porcupine.Operation{ClientId: 99, Input: c16in{"expire", "T1"}, Call: int64(expCall), Output: c16out{OK: did}, Return: int64(ret)})
 		rc.Probe("expiry-raced")
 	}
-	if len(pops) > 0 {
+	if len(pops) > 0 && !free {
 		r := porcupine.CheckOperationsTimeout(c16Model(), pops, 10*time.Second)
 		if r == porcupine.Illegal {
 			desc := []string{}
